@@ -96,6 +96,7 @@ type record struct {
 	err         error
 	via         []string
 	ctxTag      []string
+	left        []time.Duration // time to the deadline of the request context at the round trip, -1: none
 	hdrTok      []string
 	readerCalls int
 	cons        runtime.Consumer
@@ -179,6 +180,11 @@ func (t *transport) RoundTrip(req *http.Request) (*http.Response, error) {
 	rec := t.e.recs[tok]
 	rec.via = append(rec.via, t.tag)
 	rec.ctxTag = append(rec.ctxTag, ctxTag)
+	left := time.Duration(-1)
+	if dl, ok := req.Context().Deadline(); ok {
+		left = time.Until(dl)
+	}
+	rec.left = append(rec.left, left)
 	rec.hdrTok = append(rec.hdrTok, req.Header.Get("X-Tok"))
 	if err := req.Context().Err(); err != nil {
 		return nil, err
@@ -276,6 +282,10 @@ func (c *Call) wire(tok string) []byte {
 
 // Check ---------------------------------------------------------------------------------------------
 
+// soonDeadline is the deadline of a "soon" context: well inside the 30 s default timeout the calls run under, and far
+// longer than a scripted call takes.
+const soonDeadline = 20 * time.Second
+
 func newCtx(kind, tag string) context.Context {
 	switch kind {
 	case "live":
@@ -283,6 +293,14 @@ func newCtx(kind, tag string) context.Context {
 	case "cancelled":
 		ctx, cancel := context.WithCancel(context.WithValue(context.Background(), ctxKey{}, tag))
 		cancel()
+		return ctx
+	case "expired":
+		ctx, cancel := context.WithDeadline(context.WithValue(context.Background(), ctxKey{}, tag), time.Unix(1, 0))
+		_ = cancel // the context is done already; it lives as long as the case
+		return ctx
+	case "soon":
+		ctx, cancel := context.WithTimeout(context.WithValue(context.Background(), ctxKey{}, tag), soonDeadline)
+		_ = cancel
 		return ctx
 	case "background":
 		return context.Background() // exactly the value generated parameter structs default to
@@ -557,14 +575,36 @@ func judge(c Case, i int, tok string, rec *record) string {
 	if len(rec.via) > 1 {
 		return fmt.Sprintf("TRANSPORT: one Submit made %d round trips %v", len(rec.via), rec.via)
 	}
-	if effCtx == "cancelled" {
-		if rec.readerCalls > 0 {
-			return fmt.Sprintf("CONTEXT-PRECEDENCE: the effective context (%s) is cancelled, yet the reader ran", wantCtx)
+	if effCtx == "cancelled" || effCtx == "expired" {
+		wantErr := context.Canceled
+		if effCtx == "expired" {
+			wantErr = context.DeadlineExceeded
 		}
-		if rec.err == nil || !errors.Is(rec.err, context.Canceled) {
-			return fmt.Sprintf("CONTEXT-PRECEDENCE: the effective context (%s) is cancelled, Submit returned result=%v err=%v, want context.Canceled", wantCtx, rec.res, rec.err)
+		if rec.readerCalls > 0 {
+			return fmt.Sprintf("CONTEXT-PRECEDENCE: the effective context (%s) is %s, yet the reader ran", wantCtx, effCtx)
+		}
+		if rec.err == nil || !errors.Is(rec.err, wantErr) {
+			return fmt.Sprintf("CONTEXT-PRECEDENCE: the effective context (%s) is %s, Submit returned result=%v err=%v, want %v", wantCtx, effCtx, rec.res, rec.err, wantErr)
 		}
 		return ""
+	}
+	// the deadline the request ran under is the effective context's (or the default request timeout of 30 s on top of
+	// it): a deadline of the other level must not show through
+	otherCtx := ""
+	if call.OpCtx != "" {
+		otherCtx = c.RtCtx
+	}
+	for _, left := range rec.left {
+		switch {
+		case effCtx == "soon":
+			if left < 0 || left > soonDeadline {
+				return fmt.Sprintf("CONTEXT-PRECEDENCE: the effective context (%s) has a deadline %v ahead, the request ran with %v left (-1ns: no deadline)", wantCtx, soonDeadline, left)
+			}
+		case otherCtx == "soon" || otherCtx == "expired":
+			if left >= 0 && left <= soonDeadline+2*time.Second {
+				return fmt.Sprintf("CONTEXT-PRECEDENCE: the request ran with %v left, which is the deadline of the %s runtime-level context; the effective context is the operation's (%s), without a deadline of its own (default request timeout 30 s)", left, otherCtx, call.OpCtx)
+			}
+		}
 	}
 	if len(rec.via) == 0 {
 		return fmt.Sprintf("TRANSPORT: no round trip was made; Submit returned result=%v err=%v", rec.res, rec.err)
